@@ -129,7 +129,7 @@ class Ctx(object):
 class Sub(object):
     def __init__(self, name, strategy, check, quick, thorough, rule,
                  shards_quick=None, shards_thorough=16, exhaustive=False,
-                 enumerate_cases=None):
+                 enumerate_cases=None, case_timeout=None):
         self.name = name
         self.strategy = strategy          # callable tier -> hypothesis strategy
         self.check = check                # callable (case, ctx)
@@ -140,6 +140,7 @@ class Sub(object):
         self.shards_thorough = shards_thorough
         self.exhaustive = exhaustive
         self.enumerate_cases = enumerate_cases  # callable tier -> list of cases (finite domains)
+        self.case_timeout = case_timeout        # seconds; only for termination properties
 
 
 @contextlib.contextmanager
